@@ -521,6 +521,8 @@ def gen_beyond_module(rng, idx):
     k = m["consts"][0]
     k["decl"], k["beyond"] = "macro", True
     k["cdef"] = mutate_value(rng, k["cval"], True)
+    while -(1 << 64) < k["cdef"] < (1 << 64):
+        k["cdef"] += (1 << 64) if k["cdef"] >= 0 else -(1 << 64)
     m["beyond_mod"] = True
     return m
 
